@@ -3,7 +3,9 @@ package main
 import (
 	"bytes"
 	"fmt"
+	"github.com/hashicorp/go-hclog"
 	"hash/crc32"
+	"io"
 	"strings"
 
 	ber "github.com/go-asn1-ber/asn1-ber"
@@ -109,6 +111,10 @@ func decodeFrame(frame []byte) string {
 		_ = mux.DefaultRoute(h)
 	}
 	vc := gldap.NewVerifConn(1, frame, mux)
+	if crc32.ChecksumIEEE(frame)&6 == 2 {
+		// a logger at trace level (writing to nowhere): the debug paths of the read and write side run too
+		vc = gldap.NewVerifConnWithLogger(1, frame, mux, hclog.New(&hclog.LoggerOptions{Level: hclog.Trace, Output: io.Discard}))
+	}
 	r, err := vc.ReadRequest(1)
 	if err != nil {
 		return "err"
